@@ -80,6 +80,8 @@ func runC11(c *an.Ctx) {
 	c.Min("R11.8", 1)
 	c.Min("R11.5", 2)
 	c.Min("R11.6", 10)
+	r076as(c, "R11.10") // a published message is never handed to a write whose before-interceptor edits its argument: lock-free readers race with that edit (shared with R07.6)
+	c.Min("R11.10", 1)
 	c.Min("R11.7", 1)
 	c.Min("R11.1", 40)
 	c.Min("R11.2", 60)
